@@ -47,7 +47,7 @@ CHECKS.update({
  "C11": dict(engine="E2-bubble + E1-enum", cat="model_checking", tech=E2 + " (fault enumeration); backoff step: " + E1,
   text="Exhaustive fault enumeration on the real hsmsss connection in virtual time: a canonical session (TCP up, select, data both ways, linktest) is cut after every byte of both stream directions by {peer close, reset, stall, mute}, on the first and on the re-established link, both roles, 3 backoff configurations, 2 timer sets and 0/1/2/5 refused dials or failed listens; special scenarios: select rejection, T7, cold start, double drop, Close mid-backoff. Oracle: reference predicts exactly when the link is given up and by which timer, every dial time per the documented backoff, Reconnecting/Reconnects, a working Selected session on the new link/listener, silence for 10*T5 after Close. The pure backoff step is checked over the full (initial, multiplier, T5, 0..12 failures) grid.",
   note="One canonical 64+64-byte session per role on HSMS-SS (every byte offset); on SECS-I (part checks/c11t) 8 cut positions of a canonical block exchange x {close, reset} x refusals x backoff configurations, both roles, same oracle; failed dials fail instantly; timers never tied (E3's job). Trusted: synctest, sim, ref/backoff."),
- "C12": dict(engine="E1-enum + race pass", cat="exploration", tech=E1 + "; supporting free-running -race pass for the memory-model clause",
+ "C12": dict(engine="E1-enum + E3-sched + race pass", cat="model_checking", tech=E1 + "; lazy first-use paths: " + E3 + "; supporting free-running -race pass for the memory-model clause",
   text="Exhaustive enumeration, one case per (subject, mutation target): every concrete item type x element counts x every slice-taking constructor shape; secs2.Decode, DecodeHSMSMessage, DecodeHSMSPayload; constructed, derived and re-stamped data messages; control messages. Every slice that went in and every slice/array that came out (incl. spare capacity behind append results) is scribbled over; oracle: byte-identity of a deep transcript of every public accessor/serialiser before and after. Lazy decode/encode happens once whichever of six sharers calls first. Race pass: 54 subjects x 8 goroutines performing the full transcript as the concurrent first observation under the race detector.",
   note="DecodeOwned* excluded (ownership transfer by contract). The 'without data races' clause has race-detector evidence over sampled schedules only (a cooperative scheduler cannot see memory-model races); the logical at-most-once clause is enumerated sequentially. Exhaustive only over the stated grid."),
  "C16": dict(engine="E1-enum", cat="exploration", tech=E1,
